@@ -214,9 +214,11 @@ pub fn resolve_byz(payload: &Value, texts: &[String]) -> (Value, Vec<String>) {
         stack.pop();
         let txt = resolve_text(&texts[i], &|n| sub.get(&n).cloned().flatten());
         // "hex:…" = raw bytes (disclosures that are not UTF-8)
-        let b64 = match txt.strip_prefix("hex:") {
-            Some(h) => model::b64e(&(0..h.len() / 2).filter_map(|k| u8::from_str_radix(&h[2 * k..2 * k + 2], 16).ok()).collect::<Vec<u8>>()),
-            None => model::b64e(txt.as_bytes()),
+        // "raw:…" = this text as it stands (after the symbolic digests were filled in)
+        let b64 = match (txt.strip_prefix("hex:"), txt.strip_prefix("raw:")) {
+            (Some(h), _) => model::b64e(&(0..h.len() / 2).filter_map(|k| u8::from_str_radix(&h[2 * k..2 * k + 2], 16).ok()).collect::<Vec<u8>>()),
+            (_, Some(r)) => model::b64e(r.as_bytes()),
+            _ => model::b64e(txt.as_bytes()),
         };
         memo[i] = Some(b64.clone());
         Some(model::digest(&b64))
@@ -1074,6 +1076,26 @@ impl<'a> Exec<'a> {
                         signature: "c02:resolver_iss_differs_from_returned_claims".into(),
                         trigger,
                         detail: json!({"asked": call.0, "returned_iss": iss, "claims": x}),
+                        scenario: Value::Null,
+                    });
+                }
+            }
+        }
+        // ... and with the token's own protected header: nothing added from elsewhere (an
+        // unprotected `header` member, say), nothing taken away (x5c, jwk, kid …) — a resolver
+        // that picks the key by kid or certificate must see what was signed
+        if let (Some(m), Some(seen)) = (parsed, &vo.resolver_header) {
+            if let Some(own) = model::decode_jwt_part(&m.h).and_then(|h| serde_json::from_value::<jsonwebtoken::Header>(h).ok()).and_then(|h| serde_json::to_value(&h).ok()) {
+                self.rep.count("oracle.c02.resolver_header");
+                if &own != seen {
+                    let mut trigger = BTreeMap::new();
+                    trigger.insert("faults".into(), json!(fired));
+                    return Some(Violation {
+                        property: "C02".into(),
+                        clause: "resolver-given-the-signed-header".into(),
+                        signature: "c02:resolver_saw_another_header".into(),
+                        trigger,
+                        detail: json!({"protected_header": own, "header_handed_to_resolver": seen, "accepted": accepted}),
                         scenario: Value::Null,
                     });
                 }
